@@ -20,7 +20,7 @@ func init() { register(c07{}) }
 func (c07) Meta() core.Meta {
 	return core.Meta{
 		ID: "C07", Level: "exploration",
-		Rule:        "case i = f(seed,i): JSON/XML-shaped Map (keys from a 5-letter alphabet so that keys recur at several depths, depth<=6, lists of maps/scalars/mixed, no list directly inside a list, wide lists/maps with 33..80 members) + a path derived from the Map's structure (plain keys, '*', k[i] in and out of range, list levels skipped, truncated, extended past scalars, up to 3 indexed steps). ValuesForPath compared with the reference denotation: sequence equality without wildcard, multiset equality with; ValueForPath/ValueForPathString/Exists/j2x.JsonValuesForKeyPath checked for consistency. Non-trivial: the reference result is non-empty and the path has >=2 segments; distinct by hash(map, path).",
+		Rule:        "case i = f(seed,i): JSON/XML-shaped Map (keys from a 7-key alphabet so that keys recur at several depths - in 1/4 of the cases from a hostile alphabet: digit strings, names with leading/trailing blanks beside their trimmed twins, names with '/', '#attr', '_seq' -, depth<=6, lists of maps/scalars/mixed, no list directly inside a list, wide lists/maps with 33..80 members) + a path derived from the Map's structure (plain keys, '*', k[i] in and out of range, list levels skipped, truncated, extended past scalars, up to 3 indexed steps, subscripts now and then zero-padded; LeafUseDotNotation and decoder options set as ambient noise in 1/6 of the cases). ValuesForPath compared with the reference denotation: sequence equality without wildcard, multiset equality with; ValueForPath/ValueForPathString/Exists/j2x.JsonValuesForKeyPath checked for consistency. Non-trivial: the reference result is non-empty and the path has >=2 segments; distinct by hash(map, path).",
 		Assumptions: []string{"reference denotation written from the property statement (DESIGN 4 C07 refPath)", "lists directly inside lists and indexed wildcard steps are outside the quantifier and not generated"},
 		Anchors:     []string{"Map.ValuesForPath", "valuesForArray", "parsePath", "Map.oldValuesForPath", "valuesForKeyPath", "Map.ValueForPath", "Map.ValueForPathString", "Map.Exists", "j2x.JsonValuesForKeyPath"},
 		Floors:      map[string]int64{"result>32": 20, "indexed>=2": 100, "wildcard": 300, "nonempty": 1000, "indexed-after-plain-list": 30},
@@ -54,23 +54,29 @@ var c07gen = jv.GenOpt{Keys: c07keys, MaxFan: 3, WideProb: 14, ListInList: false
 
 func (c07) Case(c *core.Ctx) {
 	r := c.R
-	root := jv.M{"doc": c07gen.Fresh().Value(r, 1+r.Intn(5), false)}
+	g := c07gen
+	g.Keys = keyAlphabet(r, c07keys)
+	root := jv.M{"doc": g.Fresh().Value(r, 1+r.Intn(5), false)}
 	if r.Intn(5) == 0 {
-		root = c07gen.Fresh().Map(r, 1+r.Intn(4))
+		root = g.Fresh().Map(r, 1+r.Intn(4))
 	}
-	segs := genPath(r, root, append([]string{"doc"}, c07keys...), true, true)
+	segs := genPath(r, root, append([]string{"doc"}, g.Keys...), true, true)
 	// indexes only on non-wildcard steps (quantifier)
 	for i := range segs {
 		if segs[i].name == "*" {
 			segs[i].idx = -1
 		}
 	}
-	path := pathString(segs)
+	path := pathStringR(r, segs)
 	before := jv.Fp(root)
 	want := refEval(root, segs)
 	wild := hasWildcard(segs)
 
-	if ambientDecoderOptions(c, 6) {
+	oneIn := 6
+	if &g.Keys[0] == &hostileKeys[0] {
+		oneIn = 2
+	}
+	if ambientDecoderOptions(c, oneIn) {
 		defer ResetDefaults()
 	}
 	c.Eval()
